@@ -404,7 +404,10 @@ func (x *Explorer) Decide(t *Term) (val, ok bool) {
 
 // errIsNil: call is a (v, error) tuple whose error component is known nil on this path.
 func (x *Explorer) errIsNil(call *Term) bool {
-	if call.Kind != KCall {
+	if call.Kind != KCall && call.Kind != KOpaque {
+		return false
+	}
+	if call.Type == nil {
 		return false
 	}
 	tup, ok := call.Type.(*types.Tuple)
@@ -456,4 +459,15 @@ func (x *Explorer) Peek(addr *Term) (*Term, bool) {
 // FieldAddrOf builds the address term base.f.
 func (x *Explorer) FieldAddrOf(base *Term, f *types.Var) *Term {
 	return x.T.mk(Term{Kind: KFieldAddr, Var: f, Args: []*Term{base}, Type: types.NewPointer(f.Type())})
+}
+
+// liveIDs lists the IDs of memory cells that currently have content.
+func (x *Explorer) liveIDs() []int {
+	ids := make([]int, 0, len(x.mem))
+	for id := range x.mem {
+		if id > 0 {
+			ids = append(ids, id)
+		}
+	}
+	return ids
 }
